@@ -105,10 +105,29 @@ theorem family_calls_interchangeable (cfg : Cfg) (g : GState) (e1 e2 : Entry)
   rw [hL] at hv
   rw [family_call_eq_allocate_write cfg g e2 es2 ea2 len2 seed dyn2 blk hdiv2 ha2 hp2 hv, hL]
 
-/-- zero-sized element types and empty collections never reach the allocator: the empty denotation -/
-theorem family_zst_no_ops (e : Entry) (ea len seed : Nat) (dyn : Bool) (blk : Nat) (ht : e.isText = false) :
+/-- zero-sized element types: every entry point except `alloc_uninit_slice(_for)` (and the text ones, whose element
+    is `u8`) short-circuits — the empty denotation, returning or unwinding -/
+theorem family_zst_no_ops (e : Entry) (ea len seed : Nat) (dyn : Bool) (blk : Nat)
+    (ht : e.isText = false) (hz : e.zstReachesAllocator = false) :
     e.ops 0 ea len seed dyn blk = [] ∧ e.opsUnwound 0 ea len seed dyn blk = [] := by
-  simp [Entry.ops, Entry.opsUnwound, Entry.allocates, ht]
+  simp [Entry.ops, Entry.opsUnwound, Entry.allocates, ht, hz]
+
+/-- … and exactly those: the denotation for a zero-sized element type is empty iff the entry point is not
+    `alloc_uninit_slice`, `alloc_uninit_slice_for` or a text entry point -/
+theorem family_zst_no_ops_iff (e : Entry) (ea len seed : Nat) (dyn : Bool) (blk : Nat) :
+    e.ops 0 ea len seed dyn blk = [] ↔ (e.isText = false ∧ e.zstReachesAllocator = false) := by
+  cases e <;> simp [Entry.ops, Entry.allocates, Entry.isText, Entry.zstReachesAllocator, Entry.viaPrepare]
+
+/-- `alloc_uninit_slice(_for)` of a zero-sized type: a size-0 request with the alignment of `T` … -/
+theorem family_zst_uninit_ops (e : Entry) (ea len seed : Nat) (dyn : Bool) (blk : Nat) (hz : e.zstReachesAllocator = true) :
+    e.ops 0 ea len seed dyn blk = [.allocLayout { size := 0, align := ea } (e.hints dyn), .write blk seed] := by
+  cases e <;> simp_all [Entry.ops, Entry.allocates, Entry.isText, Entry.zstReachesAllocator, Entry.viaPrepare, Entry.layout]
+
+/-- … which steps exactly like `Allocator::allocate(Layout(0, align_of::<T>()))` (so it pads the bump position) -/
+theorem family_zst_uninit_step (cfg : Cfg) (g : GState) (e : Entry) (ea len : Nat) (dyn : Bool)
+    (hv : C11.Valid cfg.up (bumpProps cfg g.s (e.layout 0 ea len) Hints.custom)) :
+    stepCore cfg g (.allocLayout (e.layout 0 ea len) (e.hints dyn)) = stepCore cfg g (.allocate (e.layout 0 ea len) false .plain) :=
+  family_step_eq_allocate cfg g e 0 ea len dyn (Nat.dvd_zero ea) hv
 
 /-! ## Non-vacuity (the concrete upward state `exUp` of `Lemmas/CtrlEx.lean`: 24 bytes, align 8) -/
 
@@ -141,5 +160,10 @@ example : (runOps wCfg ⟨exUp, []⟩ (Entry.iterExact.opsUnwound 8 8 3 5 true 1
     ∧ (runOps wCfg ⟨exUp, []⟩ (Entry.sliceFillWith.opsUnwound 8 8 3 5 true 1)).toOption.map (fun x => curPos wCfg x.1.s) = some 0x10058 :=
   ⟨by rfl, by rfl⟩
 
+
+/-- zero-sized `[u64; 0]` (size 0, align 8): `alloc_slice_copy` denotes nothing, `alloc_uninit_slice` a size-0 request -/
+example : Entry.sliceCopy.ops 0 8 5 7 false 1 = []
+    ∧ Entry.uninitSlice.ops 0 8 5 7 false 1 = [.allocLayout { size := 0, align := 8 } Hints.array, .write 1 7] :=
+  ⟨(family_zst_no_ops .sliceCopy 8 5 7 false 1 rfl rfl).1, family_zst_uninit_ops .uninitSlice 8 5 7 false 1 rfl⟩
 
 end C17
